@@ -355,3 +355,80 @@ func VerifJSAdjacency(n int) {
 	vAssert(got == want, "same expression tree: "+string(src)+" => "+string(w.buf)+" : "+want+" vs "+got)
 	vReach("end")
 }
+
+func jMemberShape(src []byte) (string, bool) {
+	ast, err := js.Parse(parse.NewInputBytes(src), js.Options{})
+	if err != nil || len(ast.List) != 1 {
+		return "", false
+	}
+	cd, ok := ast.List[0].(*js.ClassDecl)
+	if !ok {
+		return "", false
+	}
+	out := ""
+	name := func(p js.PropertyName) string {
+		if p.IsComputed() {
+			return "[" + jShape(p.Computed) + "]"
+		}
+		d := p.Literal.Data
+		if p.Literal.TokenType == js.StringToken {
+			d = d[1 : len(d)-1]
+		} else if js.IsNumeric(p.Literal.TokenType) && refIsNumber(d, true) {
+			r := refParse(d)
+			return "num:" + string(r.ds) + "e" + string(rune('0'+r.e+5))
+		}
+		return string(d)
+	}
+	for _, it := range cd.List {
+		switch {
+		case it.StaticBlock != nil:
+			out += "static{};"
+		case it.Method != nil:
+			m := it.Method
+			out += "method(" + string(rune('0'+vB2I(m.Static))) + string(rune('0'+vB2I(m.Async))) + string(rune('0'+vB2I(m.Generator))) + string(rune('0'+vB2I(m.Get))) + string(rune('0'+vB2I(m.Set))) + ")" + name(m.Name) + ";"
+		default:
+			out += "field(" + string(rune('0'+vB2I(it.Static))) + ")" + name(it.Name) + ";"
+		}
+	}
+	return out, true
+}
+
+var jMemberMods = []string{"", "static ", "get ", "set ", "async ", "static get ", "static async ", "*", "static *", "async *"}
+var jMemberNames = []string{"a", "1", "\"s\"", "[b]", "#p", "get", "set", "static", "async", "0x10", "1.5", ".5", "\"1\"", "\"a-b\"", "constructor2"}
+
+// VerifJSClassMembers (C01/C09): class A{M1;M2} with each member a field (with or without initialiser) or a method,
+// under 10 modifier forms and 15 name forms (identifiers that are also keywords, numbers, strings, computed, private):
+// the output declares members of the same kind, staticness and name.
+func VerifJSClassMembers(n int) {
+	src := []byte("class A{")
+	for i := 0; i <= n; i++ {
+		mod := jMemberMods[vChoice("mod"+string(rune('0'+i)), len(jMemberMods))]
+		nm := jMemberNames[vChoice("name"+string(rune('0'+i)), len(jMemberNames))]
+		switch vChoice("kind"+string(rune('0'+i)), 3) {
+		case 0:
+			vAssume(mod == "" || mod == "static ")
+			src = append(src, mod+nm+"=2;"...)
+		case 1:
+			vAssume(mod == "" || mod == "static ")
+			src = append(src, mod+nm+";"...)
+		default:
+			arg := ""
+			if mod == "set " {
+				arg = "v"
+			}
+			src = append(src, mod+nm+"("+arg+"){}"...)
+		}
+	}
+	src = append(src, '}')
+	want, ok := jMemberShape(src)
+	vAssume(ok)
+	w := &vWriter{}
+	err := (&Minifier{}).Minify(nil, w, &vReader{b: append([]byte(nil), src...)}, nil)
+	vReach("after-call")
+	vOutput("out", w.buf)
+	vAssert(err == nil, "accepted")
+	got, ok2 := jMemberShape(append([]byte(nil), w.buf...))
+	vAssert(ok2, "output parses to one class declaration")
+	vAssert(got == want, "same members: "+string(src)+" => "+string(w.buf))
+	vReach("end")
+}
